@@ -393,7 +393,7 @@ def search_render_import(ctx: Ctx) -> SearchResult:
 	hist: Counter[str] = Counter()
 	extra_s = [f'"{a}{c}{b}"' for c in LINE_SEPARATORS for a, b in (('', ''), ('a', 'b'))] + ['"a\tb"', '"\x1f"', '"\x7f"', '"é"']
 	extra_r = [f'/{a}{c}{b}/' for c in LINE_SEPARATORS for a, b in (('x', ''), ('', 'y'))]
-	ok_val = lambda v: "'" not in v and '\n' not in v and '\r' not in v  # noqa: E731
+	ok_val = lambda v: not gramlib.unescaped_quote_or_line_break(v)  # noqa: E731
 	gen = gramlib.RuleGen(rng, strings=[v for v in gramlib.STRING_TERMINALS if ok_val(v)] + extra_s, regexps=[v for v in gramlib.REGEXP_TERMINALS if ok_val(v)] + extra_r)
 	gen_all = gramlib.RuleGen(rng, strings=gramlib.STRING_TERMINALS + ['"a\'b"', '"\\r"'], regexps=gramlib.REGEXP_TERMINALS + ["/'[^']*'/"])
 	world = GramWorld()
@@ -415,7 +415,7 @@ def search_render_import(ctx: Ctx) -> SearchResult:
 			variants.append(('printout', None))
 		for variant, _ in variants:
 			res.cases += 1
-			want = gramlib.tree_show(t)
+			want = gramlib.quote_fixup_show(gramlib.tree_show(t))  # what the clean render_rules' module evaluates to (`\\'` arrives as `'`)
 			seen.add(want)
 			text = ''
 			try:
@@ -448,7 +448,7 @@ def search_render_import(ctx: Ctx) -> SearchResult:
 				seen_by_render = tree_values(ast_tree.simplify())  # what render_rules gets: the printer has turned escapes into raw characters
 			except Exception:  # noqa: BLE001
 				seen_by_render = vals
-			if any(c in v for v in seen_by_render for c in "'\n\r"):
+			if any(gramlib.unescaped_quote_or_line_break(v) for v in seen_by_render):
 				cls = 'quote-or-line-break-in-terminal'
 			else:
 				cls = 'raw-line-separator-in-terminal' if any(c in v for v in vals for c in LINE_SEPARATORS) else 'other'
@@ -845,8 +845,8 @@ def search_gram_check_file(ctx: Ctx) -> SearchResult:
 					got = gramlib.rules_show(ns[stem]())
 				except Exception as e:  # noqa: BLE001
 					got = f'raised {type(e).__name__}: {e}'
-				if got != want:
-					if any(c in v for v in vals for c in "'\n\r"):
+				if got != gramlib.quote_fixup_show(want):
+					if any(gramlib.unescaped_quote_or_line_break(v) for v in vals):
 						cls = 'quote-or-line-break-in-terminal'  # render_rules has no escaping for these (proposed/C12-render-quote-line-break.md)
 					else:
 						cls = 'raw-line-separator-in-terminal' if any(c in v for v in vals for c in LINE_SEPARATORS) else 'other'
